@@ -139,9 +139,12 @@ def compare_rocc(events, actual, fields, launch_fields):
         k = e[0]
         if k == "SB":
             cur = set()
+            cur_written = set()
+            cur_has_state = e[2] if len(e) > 2 else None
         elif k == "W":
             regs[e[2]] = e[3]
             cur.add(e[2][:-4])
+            cur_written.add(e[2])
         elif k == "C":
             regs = {f: Poison(-1, "clobber") for f in regs}
         elif k == "SE":
@@ -162,6 +165,16 @@ def compare_rocc(events, actual, fields, launch_fields):
                     if isinstance(want, Poison):
                         continue
                     if wrap(want, 64) != wrap(have, 64):
+                        insn = [i_ for i_ in cur if fields[i_ + ".rs1"] == f7][0]
+                        LAST_INFO.clear()
+                        LAST_INFO.update(
+                            {
+                                "what": "rocc-operand",
+                                "have": have,
+                                "setup_has_in_state": cur_has_state,
+                                "operand_written_by_this_setup": (insn + "." + nm) in cur_written,
+                            }
+                        )
                         return f"instruction funct7={f7} carries {nm}={have} but the value in effect is {want}", st
                 st["rocc_operands_compared"] += 2
             st["rocc_setups_compared"] += 1
@@ -189,13 +202,16 @@ def compare_rocc(events, actual, fields, launch_fields):
     return None, st
 
 
+LAST_INFO: dict = {}
+
+
 class LoggingAccfg(AccfgMachine):
     def __init__(self, module, **kw):
         super().__init__(module, **kw)
         self.log_writes = True
 
     def _h_setup(self, op):
-        self.events.append(("SB", op.accelerator.data))
+        self.events.append(("SB", op.accelerator.data, op.in_state is not None))
         super()._h_setup(op)
         self.events.append(("SE", op.accelerator.data))
 
@@ -289,7 +305,8 @@ def run_program(desc, text, argnames, vecs, pre, res, skeleton=""):
         for k, v in st.items():
             R.bump(res, k, v)
         if d:
-            out.append({"kind": "csr-trace-differs", "detail": d, "case": case})
+            out.append({"kind": "csr-trace-differs", "detail": d, "case": case, "info": dict(LAST_INFO) if rocc else {}})
+            LAST_INFO.clear()
             break
     if has_cf_state and (len(subsets) >= 2 or rocc):
         R.nontrivial(res, repr(desc), skeleton)
@@ -348,6 +365,24 @@ def check_regmap(desc, res):
 
 
 def attribute(v):
+    """Known findings by mechanism: predicate + counterfactual (the corrected lowering *rejects* the input)."""
+    info = v.get("info") or {}
+    case = v.get("case") or {}
+    if (
+        v["kind"] == "csr-trace-differs"
+        and info.get("what") == "rocc-operand"
+        and info.get("have") == 0
+        and info.get("setup_has_in_state") is False
+        and info.get("operand_written_by_this_setup") is False
+        and case.get("vec") is not None
+    ):
+        from vf.counterfactual.rocc_defaults import rocc_rejects_partial_setup_without_state
+
+        res2 = R.new_result()
+        with rocc_rejects_partial_setup_without_state():
+            again = replay(case, res2)
+        if not again and any(k.startswith("NotImplementedError") for k in res2["rejected"]):
+            return "rocc-default-zero-for-unknown-partner"
     return None
 
 
@@ -360,12 +395,12 @@ def run_shard(seed, shard, n_cases, tier):
     for i, d in enumerate(box):
         if i % nsh == shard:
             for v in check_regmap(d, res):
-                R.violation(res, v["kind"], v["detail"], v["case"], attribute(v))
+                R.violation(res, v["kind"], v["detail"], v["case"], attribute(v), info=v.get("info"))
     R.bump(res, "regmap_box_size", len(box) if shard == 0 else 0)
     for _ in range(n_cases * (4 if tier == "thorough" else 6)):
         d = AD.gen_desc(rng, p_default=0.0)
         for v in check_regmap(d, res):
-            R.violation(res, v["kind"], v["detail"], v["case"], attribute(v))
+            R.violation(res, v["kind"], v["detail"], v["case"], attribute(v), info=v.get("info"))
     # monitors 1 and 3
     for i in range(n_cases):
         rocc = rng.random() < 0.25
@@ -380,15 +415,15 @@ def run_shard(seed, shard, n_cases, tier):
         pre = "accfg-trace-states,accfg-dedup" + (",accfg-config-overlap" if rng.random() < 0.5 else "")
         argn = [a.name for a in prog.args]
         for v in run_program(desc, prog.text, argn, vecs, pre, res, prog.skeleton):
-            R.violation(res, v["kind"], v["detail"], v["case"], attribute(v))
+            R.violation(res, v["kind"], v["detail"], v["case"], attribute(v), info=v.get("info"))
         R.seen(res, "accelerator_classes", desc[0])
         if i < 1 and shard == 0:
             R.sample(res, {"accelerator": repr(desc), "pipeline": pre, "program": prog.text[:3000], "vector": vecs[0][1]})
     return res
 
 
-def replay(case):
-    res = R.new_result()
+def replay(case, res=None):
+    res = res if res is not None else R.new_result()
     desc = case["desc"]
     desc = (desc[0], [tuple(tuple(x) if isinstance(x, list) else x for x in sd) for sd in desc[1]] if desc[1] else None, tuple(desc[2]) if desc[2] else None)
     if case.get("regmap"):
